@@ -115,6 +115,25 @@ func codeNonzero(c *core.Ctx) {
 				idx++
 				continue
 			}
+			// a helper that takes the code as a parameter: the obligation moves to its call sites
+			if pi, isParam := paramOf(info, fd, astx.ObjOf(info, arg)); isParam {
+				self := info.Defs[fd.Name]
+				callers, good := 0, true
+				for _, cfd := range p.AllFuncDecls(p.Connect) {
+					for _, cc := range astx.CallsDeep(cfd.Body) {
+						if astx.Callee(info, cc) == self && pi < len(cc.Args) {
+							callers++
+							if ok, _ := nonzeroValued(p, info, cc.Args[pi]); !ok {
+								good = false
+							}
+						}
+					}
+				}
+				constSites++
+				c.Check(good && callers > 0, fmt.Sprintf("ctor/%s#%d/callers", name, idx), call.Pos(), "%s forwards its code parameter; all %d call site(s) pass a non-zero constant or table value", name, callers)
+				idx++
+				continue
+			}
 			dynSites++
 			key := fmt.Sprintf("ctor/%s#%d", name, idx)
 			idx++
